@@ -138,12 +138,13 @@ fn record(args: &Args) {
             let panics = counts.get("Panic").cloned().unwrap_or(0);
             println!("{}", json!({"scenario": scen, "events": n, "counts": counts, "panics": panics}));
         }
-        "c08" | "c09" | "c20" | "c10raw" => {
+        "c08" | "c09" | "c20" | "c10raw" | "c10view" => {
             let mut log = Log::create(&out);
             match scen.as_str() {
                 "c08" => scen_file::c08(&mut log, seed, &tier),
                 "c09" => scen_file::c09(&mut log, seed, &tier),
                 "c20" => scen_file::c20(&mut log, seed, &tier),
+                "c10view" => scen_file::c10_view(&mut log, &args.get("files", ""), seed, &tier),
                 _ => scen_file::c10_raw(&mut log, seed, &tier),
             }
             let (n, counts) = log.finish();
